@@ -50,6 +50,8 @@ var pool = []Scalar{
 	num("0.1", "", true), num("0.30000000000000004", "", true), num("0.3", "", true), num("1e-7", "", true), num("-0.0", "0", true), num("9.5", "19/2", true), num("10.25", "41/4", true),
 	num(".inf", "inf", true), num("-.inf", "-inf", true), num("1e300", "", true), num("-1e300", "", true),
 	str(""), str("a"), str("b"), str("B"), str("abc"), str("ab"), str("10"), str("9"), str("1"), str("1.0"), str("1e0"), str("true"), str("null"), str("~"), str("0x1F"), str("é"), str("z"), str("日本"), str(" a"), str("a "), str("A"), str("aB"),
+	// strings that read like RFC 3339 times: text order and time order differ (offsets)
+	str("2021-01-01T10:00:00+05:00"), str("2021-01-01T06:00:00Z"), str("2021-01-01T05:00:00Z"), str("2021-01-01"),
 }
 
 func (s Scalar) rat() (*big.Rat, int) { // value, infinity sign
